@@ -1,9 +1,9 @@
-\* constants for validating recorded concurrent histories (nothing is enumerated here)
+\* STRICT reading (known finding C05-flushkv-close): a flushkv mutation is ONE atomic step, like every other call
 INIT TInit
 NEXT TNext
 VIEW TView
 CONSTANTS
-  FlushWraps = {"flush"}
+  FlushWraps = {}
   Threads = {1, 2, 3, 4, 5, 6, 7, 8, 9, 10, 11, 12, 13, 14, 15, 16}
   Explain = FALSE
   Bytes = {0, 1, 255}
